@@ -198,7 +198,7 @@ def gen_asm_source(rng, sections=None, random_bytes_p=0.35):
         n = rng.randrange(2, 14)
         for _ in range(rng.randrange(1, 3)):
             lab += 1
-            labels.append(rng.choice(["L{n}", "fn{n}.cold", "_ZN3foo3bar{n}Ev", "a$b{n}", ".Lanchor{n}", "x.y.{n}"]).format(n=lab)
+            labels.append(rng.choice(["L{n}", "fn{n}.cold", "_ZN3foo3bar{n}Ev", "a$b{n}", ".Lanchor{n}", "x.y.{n}", "caf\u00e9{n}", "\u0444\u0443\u043d\u043a{n}"]).format(n=lab)
                           if rng.random() < 0.4 else f"L{lab}")
         raw = is_data or rng.random() < random_bytes_p
         if raw:
